@@ -111,6 +111,15 @@ func (c *Contract) hasProp(id string) bool {
 	return false
 }
 
+func (c *Contract) hasAnyProp(ids []string) bool {
+	for _, id := range ids {
+		if c.hasProp(id) {
+			return true
+		}
+	}
+	return false
+}
+
 type ContractSet struct {
 	ByKey     map[string]*Contract
 	Order     []string
@@ -131,7 +140,36 @@ func (cs *ContractSet) lookup(key, fromPkg string) *Contract {
 	if c := cs.TrustedIn[fromPkg+"|"+key]; c != nil {
 		return c
 	}
-	return cs.ByKey[key]
+	// otherwise only the callee's HOME package may speak for it (the interface contract of graphql.GraphExecutor lives
+	// in graphql/verif_contracts.go and is shared by every transport): what an unrelated third package happens to
+	// declare about, say, sync.WaitGroup must not leak in - results would depend on which packages a check loads
+	if home := keyHomePkg(key); home != "" && home != fromPkg {
+		if c := cs.TrustedIn[home+"|"+key]; c != nil {
+			return c
+		}
+	}
+	if os.Getenv("GOCV_LAX_TRUST") != "" {
+		return cs.ByKey[key]
+	}
+	return nil
+}
+
+// keyHomePkg extracts the package path a callee key belongs to: "(*p/q.T).M", "(p/q.T).M", "p/q.F",
+// "field:p/q.T.f", "field:*p/q.T.f"; "" for dyn: keys and builtins.
+func keyHomePkg(key string) string {
+	k := strings.TrimPrefix(key, "field:")
+	if strings.HasPrefix(k, "dyn:") {
+		return ""
+	}
+	k = strings.TrimPrefix(k, "(")
+	k = strings.TrimPrefix(k, "*")
+	// cut at the first '.' after the last '/'
+	slash := strings.LastIndex(k, "/")
+	dot := strings.Index(k[slash+1:], ".")
+	if dot < 0 {
+		return ""
+	}
+	return k[:slash+1+dot]
 }
 
 func newContractSet() *ContractSet {
